@@ -19,6 +19,8 @@ def make_obs(ctx):
                       bounds={'duration': '|seconds| < 2^%d' % db, 'units requested': tag}))
     obs.append(Ob('totals', H, 'h_totals', {}, units=UNITS, group='totals', timeout=600,
                   bounds={'duration': '|count| < 2^40 of s, m or h'}))
+    obs.append(Ob('precalc-tai', H, 'h_precalc_tai', {}, units=UNITS, group='precalc-tai', timeout=600,
+                  bounds={'duration': '|UTC-naive seconds| < 2^24, 0..3 leap seconds in between, either order'}))
     obs.append(Ob('precalc-secs:S:wide', H, 'h_precalc_secs', {'FLAGS': 16, 'DBITS': 40}, units=UNITS, group='precalc-secs', timeout=900,
                   bounds={'duration': '|seconds| < 2^40', 'units requested': 'S'}))
     for fl in range(0, 8):
